@@ -223,10 +223,10 @@ func runSchedules(r *core.Run, depth int, alpha []hop, cfgs []hcfg) {
 	add := func(name string, p sparams, q, d xplore.Bounds, pruneDeep bool) {
 		scenarios = append(scenarios, schedx.Scenario{Name: name, Params: p, Bounds: q, Deep: d, PruneDeep: pruneDeep, Run: runSched(p)})
 	}
-	b2, b3, unb := xplore.Bounds{0, 2, 0, 0}, xplore.Bounds{0, 3, 0, 0}, xplore.Bounds{0, -1, 0, 0}
+	b2, b3 := xplore.Bounds{0, 2, 0, 0}, xplore.Bounds{0, 3, 0, 0}
 	for _, algo := range []string{"fixed", "sliding"} {
 		for _, st := range []string{"memory", "injected"} {
-			add(fmt.Sprintf("%s-%s-2req-limit1", algo, st), sparams{Algo: algo, Storage: st, Skip: "none", Limit: 1, Reqs: same(2, 200), Probe: 1}, b2, unb, true)
+			add(fmt.Sprintf("%s-%s-2req-limit1", algo, st), sparams{Algo: algo, Storage: st, Skip: "none", Limit: 1, Reqs: same(2, 200), Probe: 1}, b2, xplore.Bounds{0, 4, 0, 0}, false)
 			add(fmt.Sprintf("%s-%s-3req-limit2", algo, st), sparams{Algo: algo, Storage: st, Skip: "none", Limit: 2, Reqs: same(3, 200), Probe: 1}, b2, b3, false)
 			add(fmt.Sprintf("%s-%s-2req-limit2-otherkey", algo, st), sparams{Algo: algo, Storage: st, Skip: "none", Limit: 2, Reqs: append(same(2, 200), sreq{ID: "o1", Key: "b", Status: 200}), Probe: 1}, b2, b3, false)
 			add(fmt.Sprintf("%s-%s-skipfailed-3req-limit1", algo, st), sparams{Algo: algo, Storage: st, Skip: "failed", Limit: 1,
